@@ -2258,7 +2258,13 @@ impl<'a, 'b, W: Write> SerializeMap for MapSer<'a, 'b, W> {
                     } else {
                         self.ser.write_indent(self.depth)?;
                     }
-                    self.ser.out.write_str("? ")?;
+                    // The key's first line continues after "? ", its following lines are
+                    // indented by whole steps. That only lines up when a step is as wide as
+                    // "? " and list items are indented below their parent; otherwise the key
+                    // starts on its own line, one level deeper.
+                    let key_on_own_line =
+                        self.ser.indent_step != 2 || self.ser.compact_list_indent;
+                    self.ser.out.write_str(if key_on_own_line { "?" } else { "? " })?;
                     self.ser.at_line_start = false;
 
                     let saved_depth = self.ser.depth;
@@ -2267,11 +2273,18 @@ impl<'a, 'b, W: Write> SerializeMap for MapSer<'a, 'b, W> {
                     let saved_inline_map_after_dash = self.ser.inline_map_after_dash;
                     let saved_after_dash_depth = self.ser.after_dash_depth;
 
-                    self.ser.pending_inline_map = true;
-                    self.ser.depth = self.depth;
-                    // Provide a base depth for nested maps within this complex key so that
-                    // continuation lines indent one level deeper than the parent mapping.
-                    self.ser.current_map_depth = Some(self.depth);
+                    if key_on_own_line {
+                        self.ser.newline()?;
+                        self.ser.pending_inline_map = false;
+                        self.ser.depth = self.depth + 1;
+                        self.ser.current_map_depth = None;
+                    } else {
+                        self.ser.pending_inline_map = true;
+                        self.ser.depth = self.depth;
+                        // Provide a base depth for nested maps within this complex key so that
+                        // continuation lines indent one level deeper than the parent mapping.
+                        self.ser.current_map_depth = Some(self.depth);
+                    }
                     self.ser.after_dash_depth = None;
                     key.serialize(&mut *self.ser)?;
 
